@@ -384,6 +384,21 @@ fn long_lived_case(c: &Case, lo: &mut LongLived, st: &mut Stats) -> Result<(), F
     let fresh = Ctx::new(lo.opts, &lo.sb).map_err(pf)?;
     lo.warm.finish().map_err(pf)?;
     let chars: Vec<char> = target.chars().collect();
+    if c.mid_sel % 4 == 0 {
+        // the long-lived context is away from the candidate list for a while (update-engine, idle): just before,
+        // the first character of the target is composed and erased; while away another word is converted.  Whatever
+        // the engine keeps for "the text it saw last" meets the same text again right after the return.
+        lo.warm.ch(chars[0], 0).map_err(pf)?;
+        lo.warm.backspace(false).map_err(pf)?;
+        lo.warm.finish().map_err(pf)?;
+        let mut off = lo.opts;
+        off.psug = false;
+        lo.warm.update(off, &lo.sb).map_err(pf)?;
+        lo.warm.type_text(if c.base.is_empty() { "tumi" } else { &c.base }).map_err(pf)?;
+        lo.warm.finish().map_err(pf)?;
+        lo.warm.update(lo.opts, &lo.sb).map_err(pf)?;
+        st.label("long-lived-context-was-away-from-the-list");
+    }
     for (i, ch) in chars.iter().enumerate() {
         let sel = if i + 1 == chars.len() { c.final_sel } else { 0 };
         // junk-then-backspace bursts in the long-lived context only
@@ -426,6 +441,7 @@ pub fn run(run: &Run) {
     run.sharded("long-lived-context-vs-fresh", 16, run.tier.pick(450, 6000), 0, strategy, mk_long_lived, |c: &Case, st, lo| long_lived_case(c, lo, st));
     run.require_label("long-lived-context-reached-300-texts", 8);
     run.require_label("long-lived-context-saw-the-user-list-change", 100);
+    run.require_label("long-lived-context-was-away-from-the-list", 300);
     run.require_label("store-populated", 50);
     run.require_label("related-warm-up", 50);
     run.require_label("script-has-backspace", 50);
